@@ -120,6 +120,7 @@ J gen(uint64_t seed, bool thorough) {
       if (u < 0.25 && live.size() < 3) { J o2 = J::obj(); o2["op"] = "addbias"; mk_bias(o2); ops.push(o2); live.push_back(o2.at("name").as_str()); }
       else if (u < 0.45 && !live.empty()) { size_t q = r.below(live.size()); J o2 = J::obj(); o2["w"] = 0; o2["op"] = "delbias"; o2["name"] = live[q]; ops.push(o2); live.erase(live.begin() + (long)q); sig += "d"; }
       else if (u < 0.65) { J o2 = J::obj(); o2["w"] = 0; o2["op"] = "restart"; o2["prefix"] = "seg" + std::to_string(++prefix_n); ops.push(o2); sig += "S"; }
+      else if (u < 0.8) { J o2 = J::obj(); o2["w"] = 0; o2["op"] = "reload"; ops.push(o2); sig += "L"; }   // the live instance saves its state to a string and loads it back (checkpoint/rollback scripts do this)
     }
   }
   sc["template"] = sig.size() > 28 ? sig.substr(0, 28) : sig;
@@ -156,7 +157,8 @@ RunResult run(J const &plan) {
   long last_step = -1; bool first_of_instance = true;
   std::set<std::string> errored;
   std::map<std::string, std::set<std::string>> slept;   // per instance: variables that were not evaluated at some evaluation
-  std::map<std::string, long> first_step_of, last_step_of;
+  std::map<std::string, long> first_step_of, last_step_of, last_base_of;
+  std::map<std::string, std::map<std::string, std::vector<long>>> series_abs;   // absolute step of each series entry
   long const restart_freq = (long)sc.at("restart_freq").as_int(0);
   std::map<std::string, double> prev_val; bool have_prev = false;
   long instance_first_step = 0;
@@ -168,7 +170,7 @@ RunResult run(J const &plan) {
       // written — C13 finding) aborts the calculation half-way: what such a run writes is not judged
       if (r.err) { if (!errored.count(wpre)) res.counters["probe.instances_with_step_errors"]++; errored.insert(wpre); }
       if (!first_step_of.count(wpre)) first_step_of[wpre] = step;
-      last_step_of[wpre] = step;
+      last_step_of[wpre] = step; last_base_of[wpre] = instance_first_step;
       Row row; row.step = step; row.repeated = step == last_step; row.first_of_instance = first_of_instance;
       size_t k = 0;
       for (colvar *cv : *ep->colvars->variables()) {
@@ -182,7 +184,7 @@ RunResult run(J const &plan) {
         if (co && co->fa) { row.col["fa_" + cv->name] = asleep ? NAN : r.cv_fa[(size_t)r.cv_off[k]]; row.order.push_back("fa_" + cv->name); }
         {
           auto &ser = series_by_prefix[wpre][cv->name];
-          if (!row.repeated) ser.push_back({step - instance_first_step, asleep ? NAN : x});
+          if (!row.repeated) { ser.push_back({step - instance_first_step, asleep ? NAN : x}); series_abs[wpre][cv->name].push_back(step); }
           else if (!ser.empty() && ser.back().first == step - instance_first_step && std::isnan(ser.back().second) && !asleep) ser.back().second = x;   // slept through the first evaluation of this step
         }
         k++;
@@ -231,6 +233,12 @@ RunResult run(J const &plan) {
       binfo[bi.name] = bi;
     } else if (k == "delbias") {
       if (cvm::bias_by_name(op.at("name").as_str())) { e->run_script({"cv", "bias", op.at("name").as_str(), "delete"}); binfo.erase(op.at("name").as_str()); }
+    } else if (k == "reload") {
+      if (e->rec.empty()) continue;
+      std::string st; if (e->run_script({"cv", "savetostring"}, &st) == COLVARS_OK) e->run_script({"cv", "loadfromstring", st});
+      cvm::clear_error();
+      instance_first_step = (long)cvm::step_absolute();   // relative steps (running-average labels and strides) count from the last state load
+      res.counters["probe.live_reloads"]++;
     } else if (k == "restart") {
       if (e->rec.empty()) continue;
       long at_step = (long)cvm::step_absolute();
@@ -347,14 +355,15 @@ RunResult run(J const &plan) {
       if (sx.size() != sy.size()) continue;
       // sampled evaluations: all but the very first; asleep ones are not analysed
       std::vector<std::pair<double, double>> smp; std::vector<long> smp_rel; bool started = false, bad = false;
-      for (size_t i = 0; i < sx.size(); i++) { if (std::isnan(sx[i].second) || std::isnan(sy[i].second)) { if (started) bad = true; continue; } if (!started) { started = true; continue; } smp.push_back({sx[i].second, sy[i].second}); smp_rel.push_back(sx[i].first); }
+      for (size_t i = 0; i < sx.size(); i++) { if (std::isnan(sx[i].second) || std::isnan(sy[i].second)) { if (started) bad = true; continue; } if (!started) { started = true; continue; } smp.push_back({sx[i].second, sy[i].second}); smp_rel.push_back(series_abs[pre][c.name][i]); }
       if (bad) continue;   // (a variable that slept in the middle: its history has a hole)
       if (slept[pre].count(c.name) || (!c.cf_with.empty() && slept[pre].count(c.cf_with))) continue;   // the library kept correlating the stale value while the variable slept
       { bool any_nan = false; for (auto const &v : sx) if (std::isnan(v.second)) any_nan = true; for (auto const &v : sy) if (std::isnan(v.second)) any_nan = true; if (any_nan) continue; }   // the library correlates the stale values of a sleeping variable (C13 finding): nothing to compare with
       int L = c.cf_len, st = c.cf_stride;
       std::vector<double> acc((size_t)L + 1, 0.0); long frames = 0;
       // what the file holds was accumulated up to the last step at which the restart file was written
-      long cutoff = -1; if (restart_freq > 0) { long lastm = (last_step_of[pre] / restart_freq) * restart_freq; if (lastm > first_step_of[pre]) cutoff = lastm - first_step_of[pre]; }
+      long cutoff = -1; if (restart_freq > 0) { long lastm = (last_step_of[pre] / restart_freq) * restart_freq; if (lastm > last_base_of[pre]) cutoff = lastm; else { /* the last write happened before the last state load */ long b = last_base_of[pre]; long lm2 = (b / restart_freq) * restart_freq; if (lm2 > first_step_of[pre] && b % restart_freq == 0) cutoff = -2; } }
+      if (cutoff == -2) continue;   // (which restart write was the last one is ambiguous after a live reload on a restart step: not judged)
       for (size_t n = 0; n < smp.size(); n++) {
         if (smp_rel[n] > cutoff) break;
         if ((long)n - (long)L * st < 0) continue;                       // a full row of earlier values at this phase is needed
